@@ -1206,6 +1206,41 @@ def rule_r13(prog, res):
 
 
 # ------------------------------------------------------------------ R15
+def _index_order(prog, res):
+    """R13 (also): indexes are consumed outermost first, like the path."""
+    sdd = prog.cls('spyne.protocol.dictdoc.simple:SimpleDictDocument')
+    f = sdd.methods.get('simple_dict_to_object')
+    if f is None:
+        return
+    names = set()
+    for a in walk_no_defs(f.node):
+        if isinstance(a, ast.Assign) and 'findall' in unparse(a.value):
+            for t in a.targets:
+                if isinstance(t, ast.Name):
+                    names.add(t.id)
+    n = 0
+    for c in calls_in(f.node):
+        if not (isinstance(c.func, ast.Attribute) and isinstance(
+                c.func.value, ast.Name) and c.func.value.id in names and
+                c.func.attr in ('pop', 'popleft')):
+            continue
+        n += 1
+        first = c.func.attr == 'popleft' or (
+            c.args and isinstance(c.args[0], ast.Constant) and
+            c.args[0].value == 0)
+        where = '%s:%d' % (f.module.relpath, c.lineno)
+        res.ob('R13', where, 'simple_dict_to_object takes the next index '
+               'with %s' % unparse(c), 'ok' if first else 'VIOLATED')
+        if not first:
+            res.finding('R13', 'simple_dict_to_object|index-order', where,
+                        'the member path is walked outermost first but %s '
+                        'takes the innermost index: with two nested repeating '
+                        'levels (g.rows[1].cells[2].v) every level is counted '
+                        'under the other one\'s index, so occurrence bounds '
+                        'are compared with transposed counts' % unparse(c))
+    res.floor('R13', 'index consumption sites', n, 1)
+
+
 def rule_r15(prog, res):
     res.rule('R15', 'flat documents: a key counts once per value it carries, '
              'whatever the kind of the member')
@@ -1449,6 +1484,26 @@ def rule_r20(prog, res):
         if not rebinds:
             continue
         n += 1
+        # only an array that occurs once stands for its items
+        conj = br.test.values if isinstance(br.test, ast.BoolOp) and \
+            isinstance(br.test.op, ast.And) else [br.test]
+        once = any(isinstance(c_, ast.Compare) and isinstance(
+            c_.ops[0], ast.Eq) and 'max_o' in unparse(c_.left) and
+            isinstance(c_.comparators[0], ast.Constant) and
+            c_.comparators[0].value == 1 for c_ in conj)
+        res.ob('R20', '%s:%d' % (f.module.relpath, br.lineno),
+               '_check_freq_dict treats %s as a single wrapper' % (
+                   'an array with max_occurs == 1' if once else 'every array'),
+               'ok' if once else 'VIOLATED')
+        if not once:
+            res.finding('R20', 'DictDocument._check_freq_dict|repeated-array-'
+                        'as-wrapper', '%s:%d' % (f.module.relpath, br.lineno),
+                        'the branch that only tests presence and then the '
+                        'item bounds is taken for every Array member: for a '
+                        'member that itself repeats (Array(Integer, '
+                        'max_occurs=2): arrays of arrays) the number of '
+                        'arrays is never compared with its own '
+                        'min/max_occurs over JSON/YAML/MessagePack')
         first = min(a.lineno for a in rebinds)
         own = [r for st in br.body for r in ast.walk(st)
                if isinstance(r, ast.Raise) and r.lineno < first]
@@ -1521,6 +1576,30 @@ def rule_r20(prog, res):
                         'with the %s of the item type: the verdict differs '
                         'from HttpRpc for the same logical request' % (
                             'max_occurs' if lo else 'min_occurs'))
+    # the XML sibling: same comparison in array_from_element
+    x = prog.cls('spyne.protocol.xml:XmlDocument')
+    af = x.methods.get('array_from_element')
+    if af is None:
+        raise AnalysisError('XmlDocument.array_from_element', 'not found')
+    cmps = [c for c in ast.walk(af.node) if isinstance(c, ast.Compare) and
+            any(isinstance(y, ast.Call) and call_name(y) == 'len'
+                for y in ast.walk(c))]
+    lo = any('min_occurs' in unparse(c) for c in cmps)
+    hi = any('max_occurs' in unparse(c) for c in cmps)
+    raises = [r for r in walk_no_defs(af.node) if isinstance(r, ast.Raise)]
+    soft = any(any('SOFT_VALIDATION' in t for t, _ in guardspec.atoms_at(
+        r, af.node)) for r in raises)
+    ok = lo and hi and soft
+    res.ob('R20', af.where, 'array_from_element compares the number of items '
+           'with min_occurs: %s, max_occurs: %s, under soft validation: %s' % (
+               lo, hi, soft), 'ok' if ok else 'VIOLATED')
+    if not ok:
+        res.finding('R20', 'XmlDocument.array_from_element|items-not-counted',
+                    af.where, 'the XML array reader never compares the '
+                    'number of items with the item type\'s min/max_occurs '
+                    'under soft validation: Array(Unicode(max_occurs=2)) '
+                    'takes 3 items over XML/SOAP soft while the lxml '
+                    'validator and the dict documents refuse them')
 
 
 def run(prog, res, tier):
@@ -1537,6 +1616,7 @@ def run(prog, res, tier):
     res.run_rule(rule_r11, prog, res)
     res.run_rule(rule_r12, prog, res)
     res.run_rule(rule_r13, prog, res)
+    res.run_rule(_index_order, prog, res)
     res.run_rule(rule_r14, prog, res)
     res.run_rule(rule_r15, prog, res)
     res.run_rule(rule_r16, prog, res)
@@ -1557,6 +1637,19 @@ _I = 'spyne/protocol/_inbase.py'
 _SI = 'spyne/protocol/dictdoc/simple.py'
 
 MUTANTS = [
+    Mutant('xml-array-items-uncounted', 'R20', 'fire', _X,
+           in_func('XmlDocument.array_from_element',
+                   "        if self.validator is self.SOFT_VALIDATION:\n",
+                   "        if self.validator is self.SCHEMA_VALIDATION:\n"),
+           'items-not-counted'),
+    Mutant('repeated-array-as-single-wrapper', 'R20', 'fire', _D,
+           in_func('DictDocument._check_freq_dict',
+                   "if issubclass(v, Array) and v.Attributes.max_occurs == 1:",
+                   "if issubclass(v, Array):"), 'repeated-array-as-wrapper'),
+    Mutant('indexes-innermost-first', 'R13', 'fire', _SI,
+           in_func('SimpleDictDocument.simple_dict_to_object',
+                   "nidx = int(indexes.popleft())",
+                   "nidx = int(indexes.pop())"), 'index-order'),
     Mutant('array-own-bounds-discarded', 'R20', 'fire', _D,
            in_func('DictDocument._check_freq_dict',
                    "                if val == 0 and min_o > 0:\n"
